@@ -281,6 +281,17 @@ def K8():
     return v == "a#b", "t = %r" % (v,)
 
 
+def K9():
+    """C05: an entry type with U+0130 is lower-cased to text that is no longer one word and does not re-parse"""
+    bp = _bp()
+    t = "@STR\u0130NG{k, a = {b}}"
+    l1 = bp.parse_string(t)
+    l2 = bp.parse_string(bp.write_string(l1))
+    k1 = [type(b).__name__ for b in l1.blocks]
+    k2 = [type(b).__name__ for b in l2.blocks]
+    return k1 == k2, "%r -> %r (type %r)" % (k1, k2, getattr(l1.blocks[0], "entry_type", None))
+
+
 def F16():
     """C18: converter exception with an empty message swallowed"""
     import witnesses_c18
@@ -301,7 +312,7 @@ def F17():
     return not shared, "output metadata list is the input's / the middleware's own list: %r" % shared
 
 
-ALL = [F1, F2, F3, F4, F5, F6, F7, F8, F9, F10, F11, F12, F13, F14, F15, F16, F17, K1, K2, K3, K4, K5, K6, K7, K8]
+ALL = [F1, F2, F3, F4, F5, F6, F7, F8, F9, F10, F11, F12, F13, F14, F15, F16, F17, K1, K2, K3, K4, K5, K6, K7, K8, K9]
 
 if __name__ == "__main__":
     import bibtexparser
